@@ -1,33 +1,48 @@
 #!/bin/sh
 # tools/selftest.sh <ID> [patch...]  — must-fail corpus: every patch under selftest/<ID>/ applied to a scratch
 # copy of /repo must produce a VIOLATION for <ID>; the pristine scratch copy must not. Scratch is removed.
+# Mutants run 4 at a time.
 cd "$(dirname "$0")/.."
 export GOFLAGS=-mod=mod GOPROXY=off GOSUMDB=off GOTOOLCHAIN=local CGO_ENABLED=0
 ID="$1"; shift
-[ -x bin/ssovc ] || ./setup.sh
+BIN="${SSOVC_BIN:-bin/ssovc}"
+[ -x "$BIN" ] || ./setup.sh
 SCR=$(mktemp -d /tmp/ssovc-selftest.XXXXXX)
 trap 'rm -rf "$SCR"' EXIT
-rsync -a --exclude .git /repo/ "$SCR/repo/"
 PATCHES="$*"
 [ -n "$PATCHES" ] || PATCHES=$(ls selftest/$ID/*.patch 2>/dev/null)
-fail=0; n=0
-export VERIF_SCRATCH_OUT="$SCR/out"
-mkdir -p "$VERIF_SCRATCH_OUT"
-VERIF_REPO="$SCR/repo" bin/ssovc check -property "$ID" -tier quick > "$SCR/pristine.log" 2>&1
-if [ $? -ne 0 ]; then echo "SELFTEST $ID: pristine copy does not pass"; cat "$SCR/pristine.log"; fail=1; fi
-for p in $PATCHES; do
-  n=$((n+1))
-  rsync -a --delete --exclude .git /repo/ "$SCR/repo/"
-  if ! (cd "$SCR/repo" && patch -p1 -s < "$OLDPWD/$p"); then echo "SELFTEST $ID: $p does not apply"; fail=1; continue; fi
-  if ! (cd "$SCR/repo" && go build ./internal/... 2>"$SCR/build.log"); then echo "SELFTEST $ID: $p does not compile"; cat "$SCR/build.log"; fail=1; continue; fi
-  VERIF_REPO="$SCR/repo" bin/ssovc check -property "$ID" -tier quick > "$SCR/m.log" 2>&1
-  rc=$?
-  if [ $rc -eq 1 ] && grep -q "^VIOLATION property=$ID " "$SCR/m.log"; then
-    echo "  caught   $(basename $p): $(grep -c '^VIOLATION' "$SCR/m.log") obligation(s): $(grep '^VIOLATION' "$SCR/m.log" | sed 's/.*obligation=//' | cut -d' ' -f1 | tr '\n' ' ' | cut -c1-200)"
-  else
-    echo "  MISSED   $(basename $p) (exit $rc): $(tail -2 "$SCR/m.log" | tr '\n' ' ')"
-    fail=1
+rsync -a --exclude .git /repo/ "$SCR/pristine/"
+HERE=$(pwd)
+one() { # $1 = patch file ("" = pristine), $2 = work dir name
+  W="$SCR/$2"; mkdir -p "$W/out"
+  rsync -a "$SCR/pristine/" "$W/repo/"
+  if [ -n "$1" ]; then
+    (cd "$W/repo" && patch -p1 -s < "$HERE/$1") || { echo "  NOAPPLY  $(basename $1)" > "$W/result"; return; }
+    (cd "$W/repo" && go build ./internal/... 2>"$W/build.log") || { echo "  NOBUILD  $(basename $1): $(head -n 2 "$W/build.log" | tr '\n' ' ')" > "$W/result"; return; }
   fi
+  VERIF_SCRATCH_OUT="$W/out" VERIF_REPO="$W/repo" "$HERE/$BIN" check -property "$ID" -tier quick > "$W/m.log" 2>&1
+  rc=$?
+  if [ -z "$1" ]; then
+    if [ $rc -eq 0 ]; then echo "  pristine ok" > "$W/result"; else echo "  PRISTINE-FAILS: $(tail -n 3 "$W/m.log" | tr '\n' ' ')" > "$W/result"; fi
+  elif [ $rc -eq 1 ] && grep -q "^VIOLATION property=$ID " "$W/m.log"; then
+    echo "  caught   $(basename $1): $(grep -c '^VIOLATION' "$W/m.log") obligation(s): $(grep '^VIOLATION' "$W/m.log" | sed 's/.*obligation=//' | cut -d' ' -f1 | tr '\n' ' ' | cut -c1-220)" > "$W/result"
+  else
+    echo "  MISSED   $(basename $1) (exit $rc): $(tail -n 2 "$W/m.log" | tr '\n' ' ' | cut -c1-300)" > "$W/result"
+  fi
+  rm -rf "$W/repo" "$W/out"
+}
+n=0; k=0
+one "" w0 &
+for p in $PATCHES; do
+  n=$((n+1)); k=$((k+1))
+  one "$p" "w$n" &
+  if [ $k -ge 4 ]; then wait; k=0; fi
+done
+wait
+fail=0
+for d in "$SCR"/w*; do
+  cat "$d/result"
+  grep -q "caught\|pristine ok" "$d/result" || fail=1
 done
 echo "SELFTEST $ID: $n mutants, $( [ $fail -eq 0 ] && echo all caught || echo SOME MISSED )"
 exit $fail
